@@ -209,10 +209,13 @@ def main():
     # global watchdog: a run that does not come to an end is an infrastructure failure (exit 2), never a hang and never a verdict
     budget = int(os.environ.get("VERIF_BUDGET_S", "0") or 0) or (2400 if tier == "quick" else 7200)
 
+    from . import sysdesc as _sd
+
     def _expired(signum, frame):
-        raise subprocess.TimeoutExpired("check %s (%s tier)" % (prop, tier), budget)
+        raise _sd.CheckBudgetExceeded("check %s (%s tier): %d s" % (prop, tier, budget))
     try:
         import signal
+        _sd.GLOBAL_DEADLINE[0] = time.time() + budget
         signal.signal(signal.SIGALRM, _expired)
         signal.alarm(budget)
     except (ValueError, AttributeError):
@@ -228,7 +231,7 @@ def main():
                 mod.run(ctx)
             if (pr["failed"] or ctx.corr_fail) and not ctx.oracle_fail and hasattr(mod, "search"):
                 mod.search(ctx)          # widened, targeted stream for a failing input
-    except subprocess.TimeoutExpired:
+    except (subprocess.TimeoutExpired, _sd.CheckBudgetExceeded):
         print("timeout in infrastructure")
         sys.exit(2)
     except Exception:
